@@ -38,7 +38,8 @@ def gen_writes(rng, disc, n, start_index=0, streams=None):
     """Token writes at test phases.  '%o' in the text is replaced by the hook occurrence."""
     streams = streams or ['stdout', 'stderr', 'stdout.buffer', 'stderr.buffer', 'print']
     plan = []
-    cands = [d for d in disc if C.test_phases(d)]
+    # (doctest examples must not print: their output is compared by doctest itself)
+    cands = [d for d in disc if C.test_phases(d) and not d['t'].get('doctest')]
     if not cands:
         return plan
     for k in range(n):
